@@ -151,6 +151,10 @@ class PE:
                 else:
                     self.err("f-string with a format specification", node)
             return K(out)
+        if isinstance(node, ast.BinOp) and isinstance(node.op, (ast.Mod, ast.FloorDiv)):
+            ln, rn = self.ev(node.left), self.ev(node.right)
+            if isinstance(ln, RF) and isinstance(rn, RF) and ln.is_const() and rn.is_const() and rn.constval() != 0:
+                return const(ln.constval() % rn.constval()) if isinstance(node.op, ast.Mod) else const(ln.constval() // rn.constval())
         if isinstance(node, ast.BinOp) and isinstance(node.op, ast.Mod):
             l = self.ev(node.left)
             if isinstance(l, K) and isinstance(l.v, str):
@@ -286,6 +290,14 @@ class PE:
             return False
         if isinstance(node, ast.UnaryOp) and isinstance(node.op, ast.Not):
             return not self.truth(node.operand)
+        if isinstance(node, ast.Compare) and len(node.ops) > 1:
+            # a < b < c : pairwise, when every operand is a known number
+            vals = [self.ev(x) for x in [node.left] + node.comparators]
+            if all(isinstance(v, RF) and v.is_const() for v in vals):
+                nums = [v.constval() for v in vals]
+                table = {ast.Eq: lambda a, b: a == b, ast.NotEq: lambda a, b: a != b, ast.Lt: lambda a, b: a < b, ast.LtE: lambda a, b: a <= b, ast.Gt: lambda a, b: a > b, ast.GtE: lambda a, b: a >= b}
+                if all(type(o) in table for o in node.ops):
+                    return all(table[type(o)](a, b) for o, a, b in zip(node.ops, nums, nums[1:]))
         if isinstance(node, ast.Compare) and len(node.ops) == 1:
             op = node.ops[0]
             l, r = self.ev(node.left), self.ev(node.comparators[0])
